@@ -93,6 +93,8 @@ FUNCTIONS = [
     ('isotp/protocol.py', 'RateLimiter', 'reset'),
     ('isotp/protocol.py', 'RateLimiter', 'enable'),
     ('isotp/protocol.py', 'RateLimiter', 'disable'),
+    ('isotp/protocol.py', 'RateLimiter', 'update'),
+    ('isotp/protocol.py', 'RateLimiter', 'inform_byte_sent'),
     ('isotp/tools.py', 'FiniteByteGenerator', 'remaining_size'),
     ('isotp/tools.py', 'FiniteByteGenerator', 'depleted'),
     ('isotp/tools.py', 'FiniteByteGenerator', 'total_length'),
@@ -216,6 +218,7 @@ EFFECTFUL_CALLEES = {
     'self.tx_queue.get', 'self.tx_queue.get_nowait', 'self.rx_queue.get', 'self.rx_queue.get_nowait',
     'self.active_send_request.generator.consume',
     'self.rxfn', 'self._process_rx', 'self._process_tx', 'read',
+    'self.burst_bitcount.pop', 'self.burst_time.pop',
 }
 
 
@@ -318,6 +321,8 @@ def expr(n):
             if s.upper is not None:
                 return '(.sliceTo %s %s)' % (expr(n.value), expr(s.upper))
             raise Unsupported('full slice')
+        if isinstance(s, ast.UnaryOp) and isinstance(s.op, ast.USub) and isinstance(s.operand, ast.Constant) and s.operand.value == 1:
+            return '(.call "__last__" %s)' % args([n.value])       # `x[-1]`: the last element (negative indices are not part of `index`)
         return '(.index %s %s)' % (expr(n.value), expr(s))
     if isinstance(n, ast.Call):
         f = dotted(n.func)
@@ -396,6 +401,11 @@ def stmt(n):
             if n.value is None:
                 return None
             return '(.assign %s %s)' % (lstr(target(n.target)), expr(n.value))
+        if isinstance(n, ast.AugAssign) and isinstance(n.target, ast.Subscript) and isinstance(n.op, ast.Add) and dotted(n.target.value) \
+                and isinstance(n.target.slice, ast.UnaryOp) and isinstance(n.target.slice.op, ast.USub) \
+                and isinstance(n.target.slice.operand, ast.Constant) and n.target.slice.operand.value == 1:
+            # `x[-1] += v`: an update in place of the last element of a list held by the object: statement-level call "x[-1]+="
+            return '(.expr (.call %s %s))' % (lstr(dotted(n.target.value) + '[-1]+='), args([n.value]))
         if isinstance(n, ast.AugAssign):
             if type(n.op) not in BINOPS:
                 raise Unsupported('augmented ' + type(n.op).__name__)
